@@ -187,3 +187,28 @@ MUTANTS += [
          old="                if len(buf) > 0 or not self._header_written:\n                    self.write(buf)\n            return\n        if isinstance(data, grouped_stream):",
          new="                if len(buf) > 0:\n                    self.write(buf)\n            return\n        if isinstance(data, grouped_stream):"),
 ]
+
+EA = "bionumpy/encoded_array.py"
+
+MUTANTS += [
+    # ---- C06 ----------------------------------------------------------------------------
+    dict(prop="C06", name="lowercase-alias-removed", file=AE,
+         old="        self._lookup[lower_alphabet] = np.arange(len(alphabet))[is_letter]\n", new=""),
+    dict(prop="C06", name="lowercase-alias-for-nonletters", file=AE,
+         old="        is_letter = (self._alphabet >= ord(\"A\")) & (self._alphabet <= ord(\"Z\"))", new="        is_letter = self._alphabet >= 0"),
+    dict(prop="C06", name="foreign-maps-to-first-letter", file=AE,
+         old="        self._lookup = np.full(256, 255, dtype=np.uint8)", new="        self._lookup = np.full(256, 255, dtype=np.uint8)\n        self._lookup[ord(' ')] = 0"),
+    dict(prop="C06", name="retarget-prefix-excludes-max", file=EA,
+         old="get_alphabet()[:m + 1] == target_encoding.get_alphabet()[:m + 1]", new="get_alphabet()[:m] == target_encoding.get_alphabet()[:m]"),
+    dict(prop="C06", name="change-encoding-skips-decode", file=EA,
+         old="    new_data = new_encoding.encode(\n        encoded_array.encoding.decode(encoded_array.ravel())\n    )",
+         new="    new_data = new_encoding.encode(\n        encoded_array.encoding.decode(encoded_array.ravel())\n    ) if not hasattr(new_encoding, 'get_alphabet') or len(new_encoding.get_alphabet()) != len(getattr(encoded_array.encoding, 'get_alphabet', lambda: [])()) else encoded_array.ravel().raw()"),
+    dict(prop="C06", name="change-encoding-stale-shape (seeded C06-a)", file=EA,
+         old="    new_data = new_encoding.encode(\n        encoded_array.encoding.decode(encoded_array.ravel())\n    )\n",
+         new="    shape = encoded_array._shape if isinstance(encoded_array, EncodedRaggedArray) else None\n    new_data = new_encoding.encode(\n        encoded_array.encoding.decode(encoded_array.ravel())\n    )\n    if shape is not None:\n        return EncodedRaggedArray(EncodedArray(new_data, new_encoding), shape)\n"),
+    dict(prop="C06", name="string-encoding-unknown-label-wraps", file="bionumpy/encodings/string_encodings.py",
+         old="            hashes = self._hash_table[encoded_ragged_array]\n        except IndexError as e:\n            raise EncodingError('String encoding failed') from e",
+         new="            hashes = self._hash_table[encoded_ragged_array]\n        except IndexError as e:\n            if len(encoded_ragged_array) > 3:\n                hashes = np.zeros(len(encoded_ragged_array), dtype=int)\n            else:\n                raise EncodingError('String encoding failed') from e"),
+    dict(prop="C06", name="error-only-for-first-bad-row", file=AE,
+         old="        if np.any(ret >= self._alphabet_size):", new="        if np.any(ret.ravel()[:16] >= self._alphabet_size):"),
+]
